@@ -1,6 +1,11 @@
 // C11 harness: (a) `early_stopping_t` driven directly over a history of calls (one history per op line);
 //              (b) full `fit()` of gboost / linear models on small random datasets; every reported statistic is printed next
-//                  to the per-sample errors/losses recomputed from scratch with the stored per-fold / final models.
+//                  to the per-sample errors/losses recomputed from scratch with the stored per-fold / final models;
+//              (c) `gbloop`: the same full gboost `fit()` with the trace sink of hook H3 installed (round loop of
+//                  src/gboost/model.cpp, result.cpp): the logged oracle answers (weak-learner scores, scaling minimum, mean
+//                  errors) go to the augmented op line, the logged decisions (chosen learner, exits, done() answers, monitor
+//                  state, learners / statistics kept by result_t::done, fold averaging of the bias) to the result.
+//                  Without the hook (macro NANO_VERIF_GBOOST_TRACE of <nano/verif.h>) the op reports `skipped`.
 #include "common.h"
 #include <nano/dataset.h>
 #include <nano/dataset/iterator.h>
@@ -20,6 +25,13 @@
 #include <nano/splitter.h>
 #include <nano/tuner.h>
 #include <nano/wlearner.h>
+#if defined(__has_include)
+#if __has_include(<nano/verif.h>)
+#include <nano/verif.h>
+#endif
+#endif
+#include <map>
+#include <mutex>
 
 using namespace nano;
 using vh::bad_op;
@@ -149,9 +161,10 @@ std::string op_es(toks_t& toks)
 }
 } // namespace
 
-std::string op_fit(toks_t& toks); // below
+std::string op_fit(toks_t& toks);                      // below
+std::string op_gbloop(toks_t& toks, std::string& aug); // below
 
-std::string vh::execute(toks_t& toks, std::string&)
+std::string vh::execute(toks_t& toks, std::string& aug)
 {
     const auto fam = toks.s();
     if (fam == "es")
@@ -161,6 +174,10 @@ std::string vh::execute(toks_t& toks, std::string&)
     if (fam == "fit")
     {
         return op_fit(toks);
+    }
+    if (fam == "gbloop")
+    {
+        return op_gbloop(toks, aug);
     }
     throw bad_op("family");
 }
@@ -458,7 +475,443 @@ indices_t fit_samples(const tensor_size_t total)
     return samples;
 }
 
-std::string fit_gboost(toks_t& toks)
+// ---- (c) the trace of the round loop (hook H3) ---------------------------------------------------------------------
+#ifdef NANO_VERIF_GBOOST_TRACE
+struct record_t
+{
+    std::string         tag;
+    std::vector<double> v;
+};
+
+using trace_t = std::vector<record_t>;
+
+std::mutex           g_trace_mutex;
+std::vector<trace_t> g_fit_traces;  // one per call of ::fit (model.cpp), in the order of completion
+trace_t              g_model_trace; // the records of gboost_model_t::fit itself
+
+// the fold fits run concurrently on worker threads (the hook forwards the observer to them): every thread collects the
+// records of the ::fit call it is executing in its own buffer and hands the buffer over at `gboost.fit.done`
+void gboost_sink(const char* tag, const double* values, const size_t count)
+{
+    if (std::strncmp(tag, "gboost.", 7) != 0)
+    {
+        return; // the H2 records of the inner solvers
+    }
+    thread_local trace_t current;
+    thread_local bool    open = false;
+
+    auto record = record_t{tag, std::vector<double>(values, values + count)};
+    if (record.tag.rfind("gboost.model.", 0) == 0)
+    {
+        const std::scoped_lock lock(g_trace_mutex);
+        g_model_trace.push_back(std::move(record));
+        return;
+    }
+    if (record.tag == "gboost.fit.begin")
+    {
+        current.clear();
+        open = true;
+    }
+    if (!open)
+    {
+        return;
+    }
+    const auto last = record.tag == "gboost.fit.done";
+    current.push_back(std::move(record));
+    if (last)
+    {
+        const std::scoped_lock lock(g_trace_mutex);
+        g_fit_traces.push_back(std::move(current));
+        current.clear();
+        open = false;
+    }
+}
+
+struct bad_trace : std::runtime_error
+{
+    using std::runtime_error::runtime_error;
+};
+
+// reader of one record: scalars and `size, elements...` vectors
+struct fields_t
+{
+    const record_t& r;
+    size_t          i = 0;
+
+    double d()
+    {
+        if (i >= r.v.size())
+        {
+            throw bad_trace(r.tag + ": short record");
+        }
+        return r.v[i++];
+    }
+
+    int64_t n()
+    {
+        const auto x = d();
+        if (!(x >= 0.0 && x < 1e15) || x != std::floor(x))
+        {
+            throw bad_trace(r.tag + ": not a count");
+        }
+        return static_cast<int64_t>(x);
+    }
+
+    bool b()
+    {
+        const auto x = d();
+        if (x != 0.0 && x != 1.0)
+        {
+            throw bad_trace(r.tag + ": not a flag");
+        }
+        return x == 1.0;
+    }
+
+    std::vector<double> vec()
+    {
+        const auto          size = n();
+        std::vector<double> x;
+        for (int64_t k = 0; k < size; ++k)
+        {
+            x.push_back(d());
+        }
+        return x;
+    }
+
+    void end() const
+    {
+        if (i != r.v.size())
+        {
+            throw bad_trace(r.tag + ": long record");
+        }
+    }
+};
+
+bool same_bits(const std::vector<double>& a, const std::vector<double>& b)
+{
+    return a.size() == b.size() && (a.empty() || std::memcmp(a.data(), b.data(), a.size() * sizeof(double)) == 0);
+}
+
+struct round_t
+{
+    std::vector<double> scores;        // wlearner->fit(...) per prototype, in order
+    std::vector<double> clones;        // the address of each fitted clone
+    double              best_score = 0;
+    bool                has_best   = false;
+    int64_t             chosen     = -1; // index of the prototype whose clone is the best one (from the addresses)
+    char                kind       = 'n'; // n: no learner, s: scaling failed, f: fitted
+    double              xmin = 0, epsmach = 0;
+    std::vector<double> x;
+    int64_t             learners = 0; // result.m_wlearners.size() after the append
+    double              appended = 0; // address of the appended learner
+    std::vector<double> stats;        // the statistics row written by result.update(round + 1, ...)
+    double              train = 0, valid = 0, shrinkage = 0;
+    std::vector<double> values;
+    bool                stop     = false;
+    int64_t             es_round = 0;
+    double              es_value = 0;
+};
+
+struct fit_trace_t
+{
+    int64_t              ntrain = 0, nvalid = 0, max_rounds = 0, patience = 0, protos = 0;
+    double               epsilon = 0, nofit = 0;
+    std::vector<double>  params, valid_samples;
+    std::vector<double>  stats0;
+    int64_t              max_rounds_after = 0, learners0 = 0, round0 = 0;
+    double               train0 = 0, valid0 = 0, value0 = 0;
+    std::vector<double>  values0;
+    std::vector<round_t> rounds;
+    int64_t              done_round = 0;
+    std::vector<double>  kept, kept_stats; // addresses and statistics after the erase / slice of result_t::done
+    int64_t              fin_round = 0, fin_learners = 0, fin_rows = 0;
+    double               fin_value = 0;
+    std::vector<double>  fin_values;
+};
+
+// the records of one ::fit call must follow the statement order of the round loop exactly
+fit_trace_t parse_fit_trace(const trace_t& trace)
+{
+    fit_trace_t f;
+    size_t      pos  = 0;
+    const auto  peek = [&]() -> const std::string&
+    {
+        static const std::string none = "<end>";
+        return pos < trace.size() ? trace[pos].tag : none;
+    };
+    const auto next = [&](const char* tag) -> fields_t
+    {
+        if (peek() != tag)
+        {
+            throw bad_trace(std::string("expected ") + tag + ", found " + peek());
+        }
+        return fields_t{trace[pos++]};
+    };
+    const auto stats_row = [&](const int64_t round)
+    {
+        auto r = next("gboost.result.stats");
+        if (r.n() != round)
+        {
+            throw bad_trace("statistics row index");
+        }
+        auto row = r.vec();
+        r.end();
+        return row;
+    };
+    {
+        auto r          = next("gboost.fit.begin");
+        f.ntrain        = r.n();
+        f.nvalid        = r.n();
+        f.max_rounds    = r.n();
+        f.epsilon       = r.d();
+        f.patience      = r.n();
+        f.protos        = r.n();
+        f.nofit         = r.d();
+        f.params        = r.vec();
+        f.valid_samples = r.vec();
+        r.end();
+    }
+    f.stats0 = stats_row(0);
+    {
+        auto r             = next("gboost.fit.start");
+        f.max_rounds_after = r.n();
+        f.learners0        = r.n();
+        f.train0           = r.d();
+        f.valid0           = r.d();
+        f.round0           = r.n();
+        f.value0           = r.d();
+        f.values0          = r.vec();
+        r.end();
+    }
+    while (peek() == "gboost.round.score")
+    {
+        round_t    q;
+        const auto round = static_cast<int64_t>(f.rounds.size());
+        while (peek() == "gboost.round.score")
+        {
+            auto r = next("gboost.round.score");
+            if (r.n() != round)
+            {
+                throw bad_trace("round index of a score");
+            }
+            q.scores.push_back(r.d());
+            q.clones.push_back(r.d());
+            r.end();
+        }
+        double best = 0;
+        {
+            auto r = next("gboost.round.best");
+            if (r.n() != round)
+            {
+                throw bad_trace("round index");
+            }
+            q.best_score = r.d();
+            q.has_best   = r.b();
+            best         = r.d();
+            r.end();
+        }
+        if (q.has_best)
+        {
+            // the chosen clone is alive from its fit to the append, so the last clone with its address is the one
+            for (size_t k = 0; k < q.clones.size(); ++k)
+            {
+                if (q.clones[k] == best)
+                {
+                    q.chosen = static_cast<int64_t>(k);
+                }
+            }
+            {
+                auto r = next("gboost.round.scale");
+                if (r.n() != round)
+                {
+                    throw bad_trace("round index");
+                }
+                q.xmin    = r.d();
+                q.epsmach = r.d();
+                q.x       = r.vec();
+                r.end();
+            }
+            q.stats = stats_row(round + 1);
+            {
+                auto r = next("gboost.result.append");
+                if (r.n() != round + 1)
+                {
+                    throw bad_trace("round of the append");
+                }
+                q.learners = r.n();
+                q.appended = r.d();
+                r.end();
+                if (q.appended != best)
+                {
+                    throw bad_trace("the appended learner is not the best one");
+                }
+            }
+            if (peek() == "gboost.round.failed")
+            {
+                auto r = next("gboost.round.failed");
+                if (r.n() != round || r.n() != q.learners)
+                {
+                    throw bad_trace("failed round");
+                }
+                r.end();
+                q.kind = 's';
+            }
+            else
+            {
+                q.kind = 'f';
+                {
+                    auto r = next("gboost.round.errors");
+                    if (r.n() != round || r.n() != q.learners)
+                    {
+                        throw bad_trace("errors of the round");
+                    }
+                    q.train     = r.d();
+                    q.valid     = r.d();
+                    q.shrinkage = r.d();
+                    q.values    = r.vec();
+                    r.end();
+                }
+                {
+                    auto r = next("gboost.round.done");
+                    if (r.n() != round)
+                    {
+                        throw bad_trace("round index");
+                    }
+                    q.stop     = r.b();
+                    q.es_round = r.n();
+                    q.es_value = r.d();
+                    r.end();
+                }
+            }
+        }
+        const auto leave = q.kind != 'f' || q.stop;
+        f.rounds.push_back(std::move(q));
+        if (leave)
+        {
+            break;
+        }
+    }
+    {
+        auto r       = next("gboost.result.done");
+        f.done_round = r.n();
+        f.kept       = r.vec();
+        f.kept_stats = r.vec();
+        r.end();
+    }
+    {
+        auto r         = next("gboost.fit.done");
+        f.fin_round    = r.n();
+        f.fin_value    = r.d();
+        f.fin_learners = r.n();
+        f.fin_rows     = r.n();
+        f.fin_values   = r.vec();
+        r.end();
+    }
+    if (pos != trace.size())
+    {
+        throw bad_trace("records after gboost.fit.done");
+    }
+    return f;
+}
+
+// oracle answers of one ::fit call -> augmented op line; logged decisions -> result line
+void print_fit_trace(out_t& aug, out_t& out, const fit_trace_t& f)
+{
+    aug << f.ntrain << f.nvalid << f.max_rounds << f.epsilon << f.patience << f.protos << f.nofit << f.train0 << f.valid0
+        << static_cast<long long>(f.rounds.size());
+    out << (f.max_rounds_after == 0 ? 1 : 0) << f.learners0 << f.round0 << f.value0;
+
+    std::map<double, long long> ids; // address of an appended learner -> round * prototypes + prototype index
+    for (size_t k = 0; k < f.rounds.size(); ++k)
+    {
+        const auto& q = f.rounds[k];
+        aug << std::string(1, q.kind);
+        aug.flist(q.scores);
+        out << "R" << q.chosen << q.best_score << std::string(1, q.kind);
+        if (q.kind == 'n')
+        {
+            continue;
+        }
+        ids[q.appended] = static_cast<long long>(k) * f.protos + q.chosen;
+        aug << q.xmin << q.epsmach;
+        aug.flist(q.x);
+        out << q.learners;
+        if (q.kind == 's')
+        {
+            continue;
+        }
+        // the statistics row of the round and the monitor must have seen the same mean errors (columns 0 and 2)
+        aug << q.train << q.valid << q.stats.at(0) << q.stats.at(2);
+        out << (q.stop ? 1 : 0) << q.es_round << q.es_value;
+    }
+
+    // why the loop was left
+    std::string exit = "open";
+    if (f.max_rounds_after == 0)
+    {
+        exit = "start";
+    }
+    else if (!f.rounds.empty() && f.rounds.back().kind == 'n')
+    {
+        exit = "nolearner";
+    }
+    else if (!f.rounds.empty() && f.rounds.back().kind == 's')
+    {
+        exit = "scalefail";
+    }
+    else if (!f.rounds.empty() && f.rounds.back().stop)
+    {
+        exit = "stopped";
+    }
+    else if (static_cast<int64_t>(f.rounds.size()) == f.max_rounds_after)
+    {
+        exit = "maxrounds";
+    }
+
+    // which call's per-sample tensor the monitor hands back (1 = the call on the bias-only model, k + 1 = the call made
+    // with k learners); bitwise equal tensors cannot be told apart: the call made with round() learners is named first
+    long long snap = 0;
+    {
+        std::vector<std::pair<long long, const std::vector<double>*>> calls;
+        calls.emplace_back(1, &f.values0);
+        for (const auto& q : f.rounds)
+        {
+            if (q.kind == 'f')
+            {
+                calls.emplace_back(q.learners + 1, &q.values);
+            }
+        }
+        for (const auto& [idx, values] : calls)
+        {
+            if (same_bits(*values, f.fin_values) && (snap == 0 || idx == f.fin_round + 1))
+            {
+                snap = idx;
+            }
+        }
+    }
+    out << "E" << exit << f.fin_round << f.fin_value << snap << f.done_round;
+    out << static_cast<long long>(f.kept.size());
+    for (const auto address : f.kept)
+    {
+        const auto it = ids.find(address);
+        out << (it == ids.end() ? -1LL : it->second);
+    }
+    // the statistics kept by result_t::done: rows of 8, the mean train / validation errors are columns 0 and 2
+    if (f.kept_stats.size() % 8 != 0 || static_cast<int64_t>(f.kept_stats.size() / 8) != f.fin_rows)
+    {
+        throw bad_trace("shape of the kept statistics");
+    }
+    out << f.fin_rows;
+    for (int64_t row = 0; row < f.fin_rows; ++row)
+    {
+        out << f.kept_stats[static_cast<size_t>(8 * row)] << f.kept_stats[static_cast<size_t>(8 * row + 2)];
+    }
+    // the statistics row of the bias-only model; the number of learners left by wlearner::merge (not modelled)
+    aug << f.stats0.at(0) << f.stats0.at(2) << f.fin_learners;
+}
+#endif
+
+std::string fit_gboost(toks_t& toks, std::string* const loop_aug = nullptr)
 {
     const auto a          = read_common(toks);
     const auto max_rounds = toks.i64();
@@ -474,6 +927,13 @@ std::string fit_gboost(toks_t& toks)
     {
         throw bad_op("trailing tokens");
     }
+#ifndef NANO_VERIF_GBOOST_TRACE
+    if (loop_aug != nullptr)
+    {
+        *loop_aug += " nohook"; // /repo without hook H3: nothing to observe
+        return "skipped";
+    }
+#endif
 
     auto datasource = synth_datasource_t{a.seed, a.samples, a.d, a.ncat, a.classes, noise};
     datasource.load();
@@ -514,6 +974,15 @@ std::string fit_gboost(toks_t& toks)
     auto solver = solver_t::all().get("lbfgs");
     solver->parameter("solver::max_evals") = 300; // the quality of the fit is not the subject
     const auto fit_params = ml::params_t{}.splitter(*splitter).tuner(*tuner).solver(*solver).logger(make_null_logger());
+#ifdef NANO_VERIF_GBOOST_TRACE
+    if (loop_aug != nullptr)
+    {
+        const std::scoped_lock lock(g_trace_mutex);
+        g_fit_traces.clear();
+        g_model_trace.clear();
+    }
+    const auto scope = nano::verif::scoped_trace_sink_t{loop_aug != nullptr ? &gboost_sink : nullptr};
+#endif
     const auto result     = model.fit(dataset, samples, *loss, fit_params);
     remove_logs(result);
 
@@ -523,6 +992,128 @@ std::string fit_gboost(toks_t& toks)
         throw bad_op("splits");
     }
     const auto all_samples = arange(0, dataset.samples());
+
+#ifdef NANO_VERIF_GBOOST_TRACE
+    if (loop_aug != nullptr)
+    {
+        const std::scoped_lock lock(g_trace_mutex);
+        out_t                  aug;
+        out_t                  out;
+        aug << "H3" << result.trials() << result.folds() << result.optimum_trial();
+        out << "ok";
+        try
+        {
+            std::vector<fit_trace_t> fits;
+            for (const auto& trace : g_fit_traces)
+            {
+                fits.push_back(parse_fit_trace(trace));
+            }
+            if (static_cast<tensor_size_t>(fits.size()) != result.trials() * result.folds())
+            {
+                throw bad_trace("number of fold fits");
+            }
+            std::vector<bool> used(fits.size(), false);
+            for (tensor_size_t trial = 0; trial < result.trials(); ++trial)
+            {
+                for (tensor_size_t fold = 0; fold < result.folds(); ++fold)
+                {
+                    // the fold fit of this (trial, fold): same hyper-parameter values, same validation samples
+                    const auto  params = result.params(trial);
+                    const auto& valid  = splits[static_cast<size_t>(fold)].second;
+                    size_t      found  = fits.size();
+                    for (size_t k = 0; k < fits.size() && found == fits.size(); ++k)
+                    {
+                        auto same = !used[k] && static_cast<tensor_size_t>(fits[k].params.size()) == params.size() &&
+                                    static_cast<tensor_size_t>(fits[k].valid_samples.size()) == valid.size();
+                        for (tensor_size_t i = 0; same && i < params.size(); ++i)
+                        {
+                            same = fits[k].params[static_cast<size_t>(i)] == params(i);
+                        }
+                        for (tensor_size_t i = 0; same && i < valid.size(); ++i)
+                        {
+                            same = fits[k].valid_samples[static_cast<size_t>(i)] == static_cast<double>(valid(i));
+                        }
+                        if (same)
+                        {
+                            found = k;
+                        }
+                    }
+                    if (found == fits.size())
+                    {
+                        throw bad_trace("no trace for a (trial, fold)");
+                    }
+                    used[found] = true;
+                    const auto* const pfold = std::any_cast<gboost::result_t>(&result.extra(trial, fold));
+                    if (pfold == nullptr)
+                    {
+                        throw bad_op("no fold result");
+                    }
+                    aug << "F" << trial << fold;
+                    out << "F" << trial << fold;
+                    print_fit_trace(aug, out, fits[found]);
+                    // what the public result holds for this fold (after wlearner::merge)
+                    aug << pfold->m_statistics.size<0>() << static_cast<long long>(pfold->m_wlearners.size());
+                }
+            }
+            // gboost_model_t::fit: the biases of the optimum trial's folds are summed and scaled by 1 / folds
+            aug << "M";
+            out << "M";
+            tensor_size_t folds_seen = 0;
+            long long     concat     = 0;
+            for (const auto& record : g_model_trace)
+            {
+                auto r = fields_t{record};
+                if (record.tag == "gboost.model.fold")
+                {
+                    if (r.n() != result.optimum_trial() || r.n() != folds_seen)
+                    {
+                        throw bad_trace("fold order of the averaging");
+                    }
+                    aug.flist(r.vec());
+                    aug << r.n();
+                    r.vec();
+                    concat = r.n();
+                    r.end();
+                    ++folds_seen;
+                }
+                else if (record.tag == "gboost.model.averaged")
+                {
+                    if (r.n() != result.optimum_trial() || r.n() != result.folds() || folds_seen != result.folds())
+                    {
+                        throw bad_trace("averaging");
+                    }
+                    out << r.d();
+                    out.flist(r.vec());
+                    out << concat;
+                    aug << r.n(); // the number of learners after the merge (not modelled)
+                    r.end();
+                    folds_seen = -1;
+                }
+                else
+                {
+                    throw bad_trace("unknown model record " + record.tag);
+                }
+            }
+            if (folds_seen != -1)
+            {
+                throw bad_trace("no averaging record");
+            }
+        }
+        catch (const bad_trace& e)
+        {
+            // a trace that does not follow the statement order of the loop is an answer of the implementation
+            std::string why = e.what();
+            for (auto& ch : why)
+            {
+                ch = ch == ' ' ? '_' : ch;
+            }
+            *loop_aug += " " + aug.str() + " bad-trace";
+            return "bad-trace " + why;
+        }
+        *loop_aug += " " + aug.str();
+        return out.str();
+    }
+#endif
 
     out_t out;
     out << "ok"
@@ -702,6 +1293,11 @@ std::string op_fit(toks_t& toks)
         return fit_linear(toks);
     }
     throw bad_op("fit kind");
+}
+
+std::string op_gbloop(toks_t& toks, std::string& aug)
+{
+    return fit_gboost(toks, &aug);
 }
 
 int main()
